@@ -18,6 +18,8 @@ env.bootstrap()
 import yowsup.common.tools as T
 import yowsup.axolotl.manager as M
 import yowsup.layers.network.layer as NetL
+import yowsup.layers.axolotl.layer_receive as _LR
+_LR.print = lambda *a, **k: None      # the receive layer dumps undecodable payloads to stdout
 from yowsup.layers import YowLayer, YowLayerEvent, YowParallelLayer
 from yowsup.layers.network.dispatcher.dispatcher import YowConnectionDispatcher
 from yowsup.layers.network.layer import YowNetworkLayer
@@ -33,6 +35,48 @@ from yowsup.structs.protocoltreenode import ProtocolTreeNode
 from vf.doubles.server import Server, jid_of, clone
 
 _scratch_root = None
+
+
+class PadRandom(object):
+    """`random` as seen by yowsup.axolotl.manager (message padding length is environment nondeterminism owned
+    by the harness).  mode 'aligned': answer so that message + padding is a multiple of the cipher block (the
+    hard case: python-axolotl leaves block-aligned plaintext unpadded); mode 'cycle': 1, 2, 3, ..."""
+
+    def __init__(self, mode="aligned", seed=0):
+        self.mode = mode
+        self.n = seed
+        self.calls = 0
+        self.aligned_answers = 0
+
+    def randint(self, a, b):
+        import sys
+        self.calls += 1
+        if self.mode == "aligned":
+            f = sys._getframe(1)
+            for _ in range(4):
+                if f is None:
+                    break
+                loc = f.f_locals
+                ln = None
+                for name in ("message", "data", "plaintext"):
+                    if isinstance(loc.get(name), (bytes, bytearray)):
+                        ln = len(loc[name])
+                        break
+                if ln is None:
+                    for name in ("length", "message_len", "message_length", "size"):
+                        if isinstance(loc.get(name), int):
+                            ln = loc[name]
+                            break
+                if ln is not None:
+                    v = 16 - (ln % 16)
+                    self.aligned_answers += 1
+                    return max(a, min(b, v))
+                f = f.f_back
+        self.n += 1
+        return a + (self.n - 1) % (b - a + 1)
+
+    def __getattr__(self, name):
+        return getattr(_random, name)
 
 
 def scratch_root():
@@ -126,10 +170,13 @@ class Account(object):
         self.dropped = []
         self.handler_errors = []
         self.generation = 0       # bumped by reinstall
+        self.archive = []         # entities received by earlier processes of this account (before restarts)
         self.build()
 
     def build(self):
         """(Re)start the process: a fresh stack on the same profile directory."""
+        if self.app is not None:
+            self.archive.extend(self.app.received)
         NetL.AsyncoreConnectionDispatcher = StanzaDispatcher
         NetL.SocketConnectionDispatcher = StanzaDispatcher
         cfg = Config(phone=self.phone, cc=self.phone[:2], pushname="n-" + self.phone)
@@ -156,6 +203,9 @@ class Account(object):
             import traceback
             self.handler_errors.append((type(e).__name__, str(e)[:200], node.tag, traceback.format_exc()[-600:]))
 
+    def all_received(self):
+        return self.archive + self.app.received
+
     def connect(self):
         self.stack.broadcastEvent(YowLayerEvent(YowNetworkLayer.EVENT_STATE_CONNECT))
 
@@ -169,7 +219,7 @@ class Account(object):
 class World(object):
     """accounts + server + the step loop."""
 
-    def __init__(self, phones, autotrust=False, prekeys=12, threshold=None, seed=0, root=None):
+    def __init__(self, phones, autotrust=False, prekeys=12, threshold=None, seed=0, root=None, pad="aligned"):
         env.fix_clock()
         env.reset_ids()
         self.root = root or tempfile.mkdtemp(prefix="w-", dir=scratch_root())
@@ -177,7 +227,8 @@ class World(object):
         M.AxolotlManager.COUNT_GEN_PREKEYS = prekeys
         if threshold is not None:
             M.AxolotlManager.THRESHOLD_REGEN = threshold
-        M.random = _random.Random(seed)
+        self.pad = PadRandom(pad, seed)
+        M.random = self.pad
         _drain_detached()
         self.server = Server()
         self.accounts = {}
@@ -278,7 +329,7 @@ def _drain_detached():
 _SNAP = {}
 
 
-def provisioned(phones, groups=None, autotrust=False, prekeys=12, seed=0):
+def provisioned(phones, groups=None, autotrust=False, prekeys=12, seed=0, pad="aligned"):
     """A World whose accounts went through the real connect / passive login / key upload / reconnect sequence.
     The provisioned profile directories and server directory are built once per process and copied per call."""
     key = (tuple(phones), repr(sorted((groups or {}).items())), prekeys)
@@ -300,7 +351,7 @@ def provisioned(phones, groups=None, autotrust=False, prekeys=12, seed=0):
     root = tempfile.mkdtemp(prefix="w-", dir=scratch_root())
     os.rmdir(root)
     shutil.copytree(os.path.join(snapdir, "root"), root)
-    w = World([], autotrust=autotrust, prekeys=prekeys, seed=seed, root=root)
+    w = World([], autotrust=autotrust, prekeys=prekeys, seed=seed, root=root, pad=pad)
     w.server.dir = pickle.loads(dirblob)
     for p in phones:
         w.add(p)
@@ -311,4 +362,5 @@ def provisioned(phones, groups=None, autotrust=False, prekeys=12, seed=0):
     w.settle()
     for a in w.accounts.values():
         a.app.received[:] = []
+        a.archive[:] = []
     return w
